@@ -71,6 +71,9 @@ def _cases(tier):
     # the root merges with its own list items (it keeps its given name and is registered again, last); another key generates that name
     for k in ("root", "roots", "Root", "ROOT"):
         yield {"mode": "recursive_root", "keys": [k]}
+    # many models in one run (more than the 26 letters of one index generation), many of them with the same key-derived name
+    for n in (14, 16, 20, 30):
+        yield {"mode": "many_models", "keys": [f"n{n}"]}
     # optional renamed fields (key absent in a second sample): alias / metadata must survive the default
     seen = set()
     for k in itertools.chain(POOL, A.word_forms(A.KEY_WORDS, ["-", " "]), A.key_strings(SYMS, 2)):
@@ -92,6 +95,9 @@ def _samples(case):
         o = {k: i + 1 for i, k in enumerate(case["keys"])}
         o["zz"] = 0
         return [o] if case["mode"] == "field" else [o, {"zz": 1}]
+    if case["mode"] == "many_models":
+        n = int(case["keys"][0][1:])
+        return [{f"part{i}": {"item": {f"f{i}": i, f"g{i}": "x"}, f"h{i}": 1} for i in range(n)}]
     if case["mode"] == "recursive_root":
         return [{"uid": 1, "name": "n", "children": [{"uid": 2, "name": "m", "children": []}], case["keys"][0]: {"other": 1, "thing": "x"}}]
     if case["mode"] == "merged_class":
@@ -135,7 +141,7 @@ def _judge(prog, b, fw, kw, case, samples):
         out.append(("class_names_not_distinct", str(names)))
     if len(names) != len(b.reg.models_map):
         out.append(("class_count_differs_from_model_count", f"{names} vs {len(b.reg.models_map)} models"))
-    if out or case["mode"] == "recursive_root":
+    if out or case["mode"] in ("recursive_root", "many_models"):
         # (recursive_root: the root class is legitimately renamed Root_<index>; only the class-name clauses apply)
         return out
     root = prog.mod.__dict__.get("Root")
